@@ -117,8 +117,8 @@ def ReqOk (mp : Nat) (rs : Ranges) (szx totalLen : Nat) (out : List (Nat × Nat)
 MAX_PAYLOADS ≥ 1, with or without the `M` variant: strictly increasing numbers (no duplicates) of ONE payload set — hence
 at most MAX_PAYLOADS options —, each either below a recorded block or with its offset inside the body; and the new
 `processing_payload_set` is that payload set. -/
-theorem reqMissingQ2_spec (mp : Nat) (hmp : 0 < mp) (useM : Bool) (rs : Ranges) (szx totalLen : Nat) :
-    ReqOk mp rs szx totalLen (reqMissingQ2 mp useM rs szx totalLen) := by
+theorem reqMissingQ2At_spec (mp : Nat) (hmp : 0 < mp) (useM : Bool) (rs : Ranges) (szx totalLen : Nat) :
+    ReqOk mp rs szx totalLen (reqMissingQ2At mp useM rs szx totalLen) := by
   let Q : Nat → Prop := fun x => (∃ r, r ∈ rs ∧ x < r.1) ∨ x * 2 ^ (szx + 4) < totalLen
   have hbs : 0 < 2 ^ (szx + 4) := Nat.two_pow_pos _
   have hg := reqGaps_spec mp Q rs none none [] (fun r hr x hx => Or.inl ⟨r, hr, hx⟩)
@@ -145,7 +145,7 @@ theorem reqMissingQ2_spec (mp : Nat) (hmp : 0 < mp) (useM : Bool) (rs : Ranges) 
         intro q hq'
         obtain ⟨n, hn', rfl⟩ := List.mem_map.mp hq'
         exact hs s' rfl n hn'
-  unfold reqMissingQ2
+  unfold reqMissingQ2At
   simp only []
   split
   · -- the M variant: one option, offset inside the body
@@ -196,6 +196,43 @@ theorem reqMissingQ2_spec (mp : Nat) (hmp : 0 < mp) (useM : Bool) (rs : Ranges) 
       exact fin _ _ h1 (fun x hx => (h2 x hx).2) h3 h4
 
 /-! ## coap_send_q_blocks -/
+
+/-- the clamp of `coap_request_missing_q_block2`: never more than the length, never more than 2^20 blocks -/
+theorem q2ClampLen_le (szx totalLen : Nat) :
+    q2ClampLen szx totalLen ≤ totalLen ∧ q2ClampLen szx totalLen ≤ 2 ^ 20 * 2 ^ (szx + 4) := by
+  unfold q2ClampLen
+  generalize 2 ^ 20 * 2 ^ (szx + 4) = c
+  split <;> omega
+
+theorem ReqOk_mono (mp : Nat) (rs : Ranges) (szx a b : Nat) (out : List (Nat × Nat) × Option Nat) (hab : a ≤ b)
+    (h : ReqOk mp rs szx a out) : ReqOk mp rs szx b out := by
+  refine ⟨h.1, h.2.1, fun q hq => ?_, h.2.2.2⟩
+  have := h.2.2.1 q hq
+  refine ⟨?_, this.2⟩
+  rcases this.1 with hl | hl
+  · exact Or.inl hl
+  · exact Or.inr (Nat.lt_of_lt_of_le hl hab)
+
+/-- `coap_request_missing_q_block2` (with the clamp): `ReqOk` for the clamped length, hence for `total_len` -/
+theorem reqMissingQ2_clamped (mp : Nat) (hmp : 0 < mp) (useM : Bool) (rs : Ranges) (szx totalLen : Nat) :
+    ReqOk mp rs szx (q2ClampLen szx totalLen) (reqMissingQ2 mp useM rs szx totalLen) :=
+  reqMissingQ2At_spec mp hmp useM rs szx (q2ClampLen szx totalLen)
+
+theorem reqMissingQ2_spec (mp : Nat) (hmp : 0 < mp) (useM : Bool) (rs : Ranges) (szx totalLen : Nat) :
+    ReqOk mp rs szx totalLen (reqMissingQ2 mp useM rs szx totalLen) :=
+  ReqOk_mono mp rs szx _ _ _ (q2ClampLen_le szx totalLen).1 (reqMissingQ2_clamped mp hmp useM rs szx totalLen)
+
+/-- for EVERY `rec_blocks` and EVERY `total_len`: a number named by the recovery request lies below a recorded begin or is
+a 20-bit number -/
+theorem reqMissingQ2_20bit (mp : Nat) (hmp : 0 < mp) (useM : Bool) (rs : Ranges) (szx totalLen : Nat) :
+    ∀ q, q ∈ (reqMissingQ2 mp useM rs szx totalLen).1 → (∃ r, r ∈ rs ∧ q.1 < r.1) ∨ q.1 < 2 ^ 20 := by
+  intro q hq
+  rcases ((reqMissingQ2_clamped mp hmp useM rs szx totalLen).2.2.1 q hq).1 with hl | hl
+  · exact Or.inl hl
+  · refine Or.inr ?_
+    have h2 := (q2ClampLen_le szx totalLen).2
+    exact Nat.lt_of_mul_lt_mul_right (Nat.lt_of_lt_of_le hl h2)
+
 
 theorem same_set_succ (n mp : Nat) (hmp : 0 < mp) (h : n % mp + 1 ≠ mp) : (n + 1) / mp = n / mp := by
   have h1 := Nat.div_add_mod n mp
@@ -336,7 +373,9 @@ theorem q2Decide_same (mp : Nat) (useM isNon : Bool) (st : Q2State) (m : Nat) :
     · split
       · split
         · exact ⟨rfl, rfl, rfl⟩
-        · split <;> exact ⟨rfl, rfl, rfl⟩
+        · split
+          · exact ⟨rfl, rfl, rfl⟩
+          · split <;> exact ⟨rfl, rfl, rfl⟩
       · exact ⟨rfl, rfl, rfl⟩
   · split <;> exact ⟨rfl, rfl, rfl⟩
 
@@ -397,5 +436,124 @@ theorem q2Step_inv (cap mp : Nat) (useM isNon : Bool) (st : Q2State) (i : Q2In) 
             unfold Q2Inv
             rw [d1, d2, d3]
             exact r1
+
+/-! ### every request the Q-Block2 path sends names 20-bit block numbers (fix for c02-qblock2-num-2e20) -/
+
+/-- all numbers of all requests in a list are 20-bit -/
+def Reqs20 (l : List (List (Nat × Nat))) : Prop := ∀ rq, rq ∈ l → ∀ q, q ∈ rq → q.1 < 2 ^ 20
+
+theorem inv_req_20bit (cap mp : Nat) (hmp : 0 < mp) (useM : Bool) (st : Q2State) (h : Q2Inv cap st) :
+    ∀ q, q ∈ (reqMissingQ2 mp useM st.rs st.szx st.totalLen).1 → q.1 < 2 ^ 20 := by
+  intro q hq
+  rcases reqMissingQ2_20bit mp hmp useM st.rs st.szx st.totalLen q hq with ⟨r, hr, hlt⟩ | hl
+  · have := (h.2.2 r.1 (wf_begin_covered st.rs 0 r h.1 hr)).1
+    omega
+  · exact hl
+
+theorem reqs20_opt (l : List (Nat × Nat)) (h : ∀ q, q ∈ l → q.1 < 2 ^ 20) : Reqs20 (if l ≠ [] then [l] else []) := by
+  intro rq hrq
+  split at hrq
+  · simp at hrq; subst hrq; exact h
+  · cases hrq
+
+theorem q2Asked_req (cap mp : Nat) (hmp : 0 < mp) (useM : Bool) (st : Q2State) (num : Nat) (h : Q2Inv cap st) :
+    Reqs20 (q2Asked mp useM st num).2 := by
+  unfold q2Asked
+  simp only []
+  split
+  · exact reqs20_opt _ (inv_req_20bit cap mp hmp useM st h)
+  · intro rq hrq; cases hrq
+
+theorem q2Record_req (cap mp : Nat) (hmp : 0 < mp) (useM : Bool) (st : Q2State) (num : Nat) (h : Q2Inv cap st) :
+    Reqs20 (q2Record cap mp useM st num).2.1 := by
+  unfold q2Record
+  split
+  · intro rq hrq; cases hrq
+  · simp only []
+    split <;> exact q2Asked_req cap mp hmp useM st num h
+
+theorem firstEnd_covered (rs : Ranges) (lo : Nat) (hw : WfFrom lo rs) (hne : rs ≠ []) : Covers rs (firstEnd rs) := by
+  cases rs with
+  | nil => exact absurd rfl hne
+  | cons r rest =>
+    obtain ⟨b, e⟩ := r
+    rw [covers_cons]
+    exact Or.inl ⟨hw.2.1, Nat.le_refl _⟩
+
+theorem q2Decide_req (cap mp : Nat) (hmp : 0 < mp) (useM isNon : Bool) (st : Q2State) (m : Nat) (h : Q2Inv cap st) :
+    Reqs20 (q2Decide mp useM isNon st m).2.1 := by
+  have nil : Reqs20 [] := by intro rq hrq; cases hrq
+  unfold q2Decide
+  simp only []
+  split
+  · split
+    · exact nil
+    · split
+      · split
+        · exact reqs20_opt _ (inv_req_20bit cap mp hmp useM { st with processing := firstEnd st.rs / mp + 1 } h)
+        · split
+          · exact nil
+          · split
+            · exact nil
+            · rename_i hlt
+              intro rq hrq q hq
+              simp at hrq; subst hrq
+              simp at hq; subst hq
+              show firstEnd st.rs + 1 < 2 ^ 20
+              omega
+      · exact nil
+  · split <;> exact nil
+
+theorem q2Step_req (cap mp : Nat) (hmp : 0 < mp) (useM isNon : Bool) (st : Q2State) (i : Q2In) (hn : i.num < 2 ^ 20)
+    (h : Q2Inv cap st) : Reqs20 (q2Step cap mp useM isNon st i).2.1 := by
+  have nil : Reqs20 [] := by intro rq hrq; cases hrq
+  unfold q2Step
+  by_cases c0 : ¬ (i.m = 1 ∨ i.length ≠ 0)
+  · rw [if_pos c0]; exact nil
+  · rw [if_neg c0]
+    simp only []
+    generalize hlen : (if i.length > 2 ^ (i.szx + 4) then 2 ^ (i.szx + 4) else i.length) = length
+    by_cases c1 : i.m = 1 ∧ length ≠ 2 ^ (i.szx + 4)
+    · rw [if_pos c1]; exact nil
+    · rw [if_neg c1]
+      obtain ⟨p1, p2⟩ := q2Pre_inv cap st i (q2Size2 i length) h
+      by_cases c2 : (q2Pre st i (q2Size2 i length)).2 = true
+      · rw [if_pos c2]; exact nil
+      · rw [if_neg c2]
+        have rq1 := q2Record_req cap mp hmp useM _ i.num p1
+        by_cases c3 : (q2Record cap mp useM (q2Pre st i (q2Size2 i length)).1 i.num).2.2 = none
+        · rw [if_pos c3]; exact rq1
+        · rw [if_neg c3]
+          by_cases c4 : (q2Record cap mp useM (q2Pre st i (q2Size2 i length)).1 i.num).2.2 = some false
+          · rw [if_pos c4]; exact rq1
+          · rw [if_neg c4]
+            have hch : 0 < 2 ^ (i.szx + 4) := Nat.two_pow_pos _
+            have hp := p2 (by simpa using c2)
+            have hpos : 0 < length := by
+              by_cases hm : i.m = 1
+              · have : length = 2 ^ (i.szx + 4) := by
+                  by_cases hl : length = 2 ^ (i.szx + 4)
+                  · exact hl
+                  · exact absurd ⟨hm, hl⟩ c1
+                omega
+              · have hl0 : i.length ≠ 0 := by
+                  by_cases hl : i.length = 0
+                  · exact absurd (fun hh => by rcases hh with hh | hh; exact hm hh; exact hh hl) c0
+                  · exact hl
+                rw [← hlen]
+                split <;> omega
+            have hoff : i.num * 2 ^ ((q2Pre st i (q2Size2 i length)).1.szx + 4) < (q2Pre st i (q2Size2 i length)).1.totalLen := by
+              rw [hp.1, hp.2]
+              unfold q2Size2
+              simp only []
+              split
+              · split <;> omega
+              · omega
+            obtain ⟨r1, _, _⟩ := q2Record_inv cap mp useM _ i.num p1 hn hoff
+            have rq2 := q2Decide_req cap mp hmp useM isNon _ i.m r1
+            intro rq hrq
+            rcases List.mem_append.mp hrq with hrq | hrq
+            · exact rq1 rq hrq
+            · exact rq2 rq hrq
 
 end Coap.QBlock
